@@ -6,6 +6,7 @@ import LinOp.C15.Gen
 mro <Class>                               -> A,B,C | none
 resolve <Class> <method>                  -> <DefiningClass> | none
 dispk <torch-fn> <arg>;…|- <kwarg>;…    -> as disp, tensor-like keyword arguments listed separately
+bind <Class> <method> <v>;…|- <k>=<v>;…|-  -> ok <param>=<v>;… | err | no-signature
 disp <torch-fn> <arg>;<arg>;…             -> call <Definer>.<method> swapped=<0|1> args=<arg>;… | raise <Kind> | native
 val <torch-fn> <xarg> <yarg> <alpha|n> <X> <Y>   -> model=<ok M|err kind> spec=<ok M|err kind|none>
 ```
@@ -63,6 +64,18 @@ def stepLine (_ : Unit) (line : String) : Unit × String :=
       match (if as = "-" then some [] else (as.splitOn ";").mapM parseArg), (ks.splitOn ";").mapM parseArg with
       | some args, some kwops => showOutcome (dispatchKN LinOp.Generated.C15.kwNormalised T f args kwops ())
       | _, _ => "bad-args"
+    | ["bind", c, m, ps, ks] =>
+      -- Python's binding of `getattr(c, m)(*ps, **ks)` against the generated signature of the resolved definition
+      let pos := if ps = "-" then [] else ps.splitOn ";"
+      let kw : Env := if ks = "-" then [] else (ks.splitOn ";").map fun s => match s.splitOn "=" with
+        | [k, v] => (k, v)
+        | _ => (s, "")
+      match handlerSig c m with
+      | none => "no-signature"
+      | some sig =>
+        match bindPy sig pos kw with
+        | .ok env => "ok " ++ ";".intercalate (env.map fun e => e.1 ++ "=" ++ e.2)
+        | .error _ => "err"
     | ["val", f, xa, ya, al, xs, ys] =>
       match parseArg xa, parseArg ya, parseMat? xs, parseMat? ys with
       | some xa, some ya, some X, some Y =>
